@@ -160,6 +160,8 @@ if __name__ == "__main__":
         "a peer's tags are forgotten when its last connection is disconnected, and a regular trim may drop the buffered early tags of a peer "
         "that holds no connection (both are the code's documented design; the monitor accepts the second only when the implementation reports the peer absent)",
         "a manager with low = 0 or high = 0 is disabled by configuration: the 'at most low-watermark connections remain' clause is not demanded of it",
+        "precondition 0 <= low watermark (a hypothesis the proof forced: NewConnManager accepts any int, and with a negative low the clause "
+        "'at most low-watermark connections remain' is unsatisfiable); the harness uses low in 0..7",
         "the background trim loop runs the same trim(); the harness sets the silence period so that it never fires inside a case",
     ]
     standard_flow(ctx, dict(
